@@ -1,11 +1,13 @@
 import Driver.Util
 import Driver.SemDrv
+import Driver.StopDrv
 /-! `driver <model>`: reads harness output (cases) on stdin, prints one verdict line per case. -/
 open Driver
 
 def dispatch (model : String) (c : Case) : String :=
   match model with
   | "sem" => SemDrv.runCase c
+  | "stop" => StopDrv.runCase c
   | _ => s!"case {c.id} reject 0 unknown-model-{model}"
 
 def main (args : List String) : IO UInt32 := do
